@@ -113,7 +113,8 @@ def one(m):
                 rules = m.get("rule")
                 hit = rc == 1 and "VIOLATION" in out and (rules is None or any(f"rule={r} " in out for r in ([rules] if isinstance(rules, str) else rules)))
                 if hit:
-                    return m, "OK", f"{pid} fired"
+                    fired_rules = sorted({l.split("rule=", 1)[1].split(" ", 1)[0] for l in out.splitlines() if l.startswith("  rule=")})
+                    return m, "OK", f"{pid} fired ({', '.join(fired_rules[:4])}{', ...' if len(fired_rules) > 4 else ''})"
             return m, "MISSED", "; ".join(f"{pid} rc={rc} " + " | ".join(l for l in out.splitlines() if l.startswith(("VIOLATION", "ANALYSIS", "  rule")))[:300] for pid, rc, out in results)
         elif kind == "unrecognised":
             # a rewrite outside the enumerated idioms: the check must stop with ANALYSIS-ERROR (exit 2), never pass silently
